@@ -58,6 +58,33 @@ def pick_int(i: int, lo: int, hi: int) -> int:
     return hi
 
 
+def pick_bisect(i: int, lo: int, hi: int) -> int:
+    """Same as pick_int with ~log2(hi-lo) solver decisions per call instead of hi-lo (wide ranges: op codes)."""
+    while lo < hi:
+        mid = (lo + hi) // 2
+        if i <= mid:
+            hi = mid
+        else:
+            lo = mid + 1
+    return lo
+
+
+def untraced() -> Any:
+    """Context manager suspending CrossHair's opcode tracing (a no-op natively).  Only for real code that receives
+    nothing but CONCRETE values (every symbolic parameter was forked to a concrete int / bool by pick_int / pick_bisect
+    first): the solver still chooses the path, the code then runs exactly as in CPython, without the ~30x tracing overhead
+    on pydantic / importlib / sqlite glue.  A symbolic value leaking in would be rejected loudly by sqlite3 / pydantic-core."""
+    import contextlib
+
+    if not vlib.boot.under_crosshair():
+        return contextlib.nullcontext()
+    try:
+        from crosshair.tracers import NoTracing, is_tracing
+    except Exception:  # pragma: no cover
+        return contextlib.nullcontext()
+    return NoTracing() if is_tracing() else contextlib.nullcontext()
+
+
 def pick(pool: Sequence[Any], i: int) -> Any:
     n = len(pool)
     for k in range(n - 1):
